@@ -86,7 +86,7 @@ def check_pruner_arg(ctx: Ctx, cname: str, new: FuncInfo, call: ast.Call) -> Non
             if verdict is None:
                 raise AnalysisError(f"{new.where}: sorted(..., key=...) – cannot decide whether the key determines the pattern")
             if verdict is not True:
-                ctx.violation("C05-O1", new, call, f"the sort key `{unparse(kw.value)[:70]}` does not determine the pattern ({verdict}): tied patterns keep their input order (sort is stable), so the basis depends on the order in which patterns were given")
+                ctx.violation("C05-O1", new, call, f"the sort key `{unparse(kw.value)[:70]}` does not determine the pattern ({verdict}): tied patterns keep their input order (sort is stable), so the basis depends on the order in which patterns were given", robust=True)
                 return
     src = arg.args[0]
     if isinstance(src, ast.Name) and src.id == va:
@@ -265,7 +265,7 @@ def rule_t1(ctx: Ctx) -> None:
     non_std = [(c, n) for c, n in ctors if repo.method("Perm", c) is not None and repo.method("Perm", c).name != "to_standard"]
     if non_std:
         for c, n in non_std:
-            ctx.violation("C05-T1", fs, n, f"digit tokens are converted with Perm.{c}, which does not standardise: '132' and '021' would give different bases (or invalid permutations)")
+            ctx.violation("C05-T1", fs, n, f"digit tokens are converted with Perm.{c}, which does not standardise: '132' and '021' would give different bases (or invalid permutations)", robust=True)
         return
     ctx.run(check_skeleton, ctx, "C05-T1", fs, specs, "Basis.from_string standardises every digit token (0-/1-based agree)")
     avfs = repo.need_method("Av", "from_string")
@@ -288,7 +288,7 @@ def rule_k1(ctx: Ctx) -> None:
             ctx.ok("C05-K1", o["where"], "equal bases denote the same class object: " + o["what"])
     for f in sub.findings:
         fi = ctx.repo.funcs[f.where]
-        ctx.violation("C05-K1", fi, fi.node, f.message)
+        ctx.violation("C05-K1", fi, fi.node, f.message, robust=True)
 
 
 def rule_d1(ctx: Ctx) -> None:
